@@ -722,9 +722,38 @@ func (e *Engine) fnByShort(name string) *ssa.Function {
 func (vc *VC) frameSetup(fr *Frame, fc *FuncContract) {
 	vc.frameWhole = map[string]bool{}
 	vc.frameObjs = map[string][]string{}
-	for _, m := range fc.Modifies {
-		m = strings.TrimSpace(m)
+	mods := append([]string{}, fc.Modifies...)
+	for k := 0; k < len(mods); k++ {
+		m := strings.TrimSpace(mods[k])
 		if strings.HasPrefix(m, "ghost ") {
+			continue
+		}
+		if strings.HasPrefix(m, "*") {
+			inner := strings.TrimSpace(m[1:])
+			v, err := vc.specEval(fr, vc.entry, vc.entry, inner, nil)
+			if err != nil {
+				vc.unsupportedf("modifies %s: %v", m, err)
+				continue
+			}
+			pt, ok := v.typ.Underlying().(*types.Pointer)
+			if !ok {
+				vc.unsupportedf("modifies %s: not a pointer", m)
+				continue
+			}
+			if isStructLike(pt.Elem()) {
+				for _, f := range structFieldNames(pt.Elem()) {
+					mods = append(mods, inner+"."+f)
+				}
+				continue
+			}
+			sv := vc.cellSV(pt.Elem())
+			vc.frameObjs[sv] = append(vc.frameObjs[sv], vc.def("Int", v.term, "fr"))
+			if mt, ok := pt.Elem().Underlying().(*types.Map); ok {
+				d, vv := vc.mapSV(mt)
+				mref := vc.def("Int", fmt.Sprintf("(select %s %s)", vc.get(vc.entry, sv), v.term), "fr")
+				vc.frameObjs[d] = append(vc.frameObjs[d], mref)
+				vc.frameObjs[vv] = append(vc.frameObjs[vv], mref)
+			}
 			continue
 		}
 		if strings.HasSuffix(m, "[*]") {
